@@ -37,6 +37,18 @@ class PyCore:
         )
         self.observer = rope.base.resourceobserver.FilteredResourceObserver(observer)
         self.project.add_observer(self.observer)
+        # `self.observer` only reports resources whose modules are cached.  A
+        # module that appears (created, moved in, or found by `validate()`) can
+        # change what the imports of already analyzed modules resolve to.
+        appeared = self._resource_appeared
+        self.project.add_observer(
+            rope.base.resourceobserver.ResourceObserver(
+                moved=appeared, created=appeared, validate=appeared
+            )
+        )
+
+    def _resource_appeared(self, resource, new_resource=None):
+        self.module_cache.forget_all_data()
 
     def _init_automatic_soa(self):
         if not self.automatic_soa:
